@@ -18,6 +18,12 @@ def run(tier, corrupt=0):
                     timeout=3600, heap="12g")
     nv = vlib.tlc_expect_violation("MC_Iterator", cfg="MC_Iterator_unsound", workers=4)
     c.setv("nonvacuity", "MC_Iterator_unsound (hint may skip anything): TLC finds a counterexample (%s)" % ",".join(nv.invariant_violated))
+    # is_constant (the "never changes" shortcut) is sound: every rule sequence <= 3 (quick) / <= 4 (thorough) of an alphabet with rules
+    # lacking a day selector; the clause the pinned repair of R1 lacked is refuted by TLC (R16)
+    common.mc_phase(c, "MC_DayEval", cfg="MC_DayEval_const" if tier == "quick" else "MC_DayEval_const_thorough", workers=8,
+                    require_actions=False, timeout=3600, heap="8g")
+    vlib.tlc_expect_violation("MC_DayEval", cfg="MC_DayEval_const_nv", workers=4)       # some constant expression has a fallback rule
+    vlib.tlc_expect_violation("MC_DayEval", cfg="MC_DayEval_const_r1", workers=4)       # the incomplete repair is refuted
     n, procs, shards = (1500, 16, 12) if tier == "quick" else (50000, 16, 16)
     lines = iter_common.record_parallel(c, "range", n, procs, corrupt=corrupt,
                                        extra=["--work-budget", 6_000_000 if tier == "quick" else 400_000_000])
